@@ -294,9 +294,24 @@ func OrderSensitive(s Step) bool {
 // their type; unspec != "" means the documentation does not define the result of this
 // traversal on this graph (the case must not be judged by equality).
 func Eval(g *Graph, steps []Step) (travs []*Trav, final Type, unspec string) {
+	travs, final, unspec, subsetOnly := EvalX(g, steps)
+	if unspec == "" && subsetOnly {
+		return nil, final, "unwind() of a missing, non-list or empty value"
+	}
+	return travs, final, unspec
+}
+
+// EvalX is Eval with one more outcome. unwind() of a missing, non-list or empty value is
+// not documented: neither how many rows it yields (the engine yields one, MongoDB's
+// $unwind none) nor what the unwound field holds. The reference yields one row whose
+// unwound field is *tainted*; a later step that reads a tainted field makes the case
+// unspecified, but if nothing reads it (e.g. the traversal moves on with select/out) the
+// rows are still determined up to that multiplicity: subsetOnly is true and the engine's
+// rows must be a sub-multiset of the returned ones.
+func EvalX(g *Graph, steps []Step) (travs []*Trav, final Type, unspec string, subsetOnly bool) {
 	ty := TypeCheck(steps)
 	if ty.Verdict != WellTyped {
-		return nil, ty.Final, "typing " + ty.Verdict.String() + ": " + ty.Why
+		return nil, ty.Final, "typing " + ty.Verdict.String() + ": " + ty.Why, false
 	}
 	cur := TNone
 	travs = []*Trav{{Marks: map[string]*Element{}}}
@@ -350,7 +365,7 @@ func Eval(g *Graph, steps []Step) (travs []*Trav, final Type, unspec string) {
 			for _, t := range travs {
 				if cur == TEdge {
 					if len(s.Args) > 0 {
-						return nil, cur, "edge-label argument on a move from an edge"
+						return nil, cur, "edge-label argument on a move from an edge", false
 					}
 					if s.Op == "in" || s.Op == "both" {
 						if v := g.Vertex(t.Cur.From); v != nil {
@@ -402,9 +417,14 @@ func Eval(g *Graph, steps []Step) (travs []*Trav, final Type, unspec string) {
 			}
 		case "has":
 			for _, t := range travs {
+				for _, lf := range s.Has.Leaves() {
+					if t.readsTainted(lf.Key) {
+						return nil, cur, taintedRead, false
+					}
+				}
 				r := RefExpr(s.Has, t.Lookup)
 				if r == Undefined {
-					return nil, cur, fmt.Sprintf("step %d: has() cell not defined by the documentation", i)
+					return nil, cur, fmt.Sprintf("step %d: has() cell not defined by the documentation", i), false
 				}
 				if r == True {
 					next = append(next, t)
@@ -429,6 +449,9 @@ func Eval(g *Graph, steps []Step) (travs []*Trav, final Type, unspec string) {
 			for _, t := range travs {
 				all := true
 				for _, k := range s.Args {
+					if t.readsTainted(k) {
+						return nil, cur, taintedRead, false
+					}
 					if _, ok := t.Lookup(k); !ok {
 						all = false
 					}
@@ -451,7 +474,7 @@ func Eval(g *Graph, steps []Step) (travs []*Trav, final Type, unspec string) {
 				for _, t := range travs {
 					m, ok := t.Marks[s.Args[0]]
 					if !ok {
-						return nil, cur, "select of undefined mark"
+						return nil, cur, "select of undefined mark", false
 					}
 					next = append(next, t.with(m, true))
 				}
@@ -461,7 +484,10 @@ func Eval(g *Graph, steps []Step) (travs []*Trav, final Type, unspec string) {
 					for _, name := range s.Args {
 						m, ok := t.Marks[name]
 						if !ok {
-							return nil, cur, "select of undefined mark"
+							return nil, cur, "select of undefined mark", false
+						}
+						if len(m.Tainted) > 0 {
+							return nil, cur, taintedRead, false
 						}
 						sel[name] = m
 					}
@@ -473,7 +499,7 @@ func Eval(g *Graph, steps []Step) (travs []*Trav, final Type, unspec string) {
 			for _, a := range s.Args {
 				name := strings.TrimPrefix(a, "-")
 				if name == "" || strings.ContainsAny(name, ".$") || strings.HasPrefix(name, "_") {
-					return nil, cur, "fields() on reserved or nested names"
+					return nil, cur, "fields() on reserved or nested names", false
 				}
 				if strings.HasPrefix(a, "-") {
 					exc = append(exc, name)
@@ -482,11 +508,31 @@ func Eval(g *Graph, steps []Step) (travs []*Trav, final Type, unspec string) {
 				}
 			}
 			if len(inc) > 0 && len(exc) > 0 {
-				return nil, cur, "fields() mixing include and exclude"
+				return nil, cur, "fields() mixing include and exclude", false
 			}
 			for _, t := range travs {
 				el := *t.Cur
 				el.Data = map[string]interface{}{}
+				el.Tainted = nil
+				for k := range t.Cur.Tainted {
+					keep := len(inc) == 0 && len(exc) > 0
+					for _, x := range inc {
+						if x == k {
+							keep = true
+						}
+					}
+					for _, x := range exc {
+						if x == k {
+							keep = false
+						}
+					}
+					if keep {
+						if el.Tainted == nil {
+							el.Tainted = map[string]bool{}
+						}
+						el.Tainted[k] = true
+					}
+				}
 				switch {
 				case len(inc) > 0:
 					for _, k := range inc {
@@ -507,27 +553,44 @@ func Eval(g *Graph, steps []Step) (travs []*Trav, final Type, unspec string) {
 			pathOK = false
 		case "render":
 			for _, t := range travs {
+				for _, ref := range TemplateRefs(s.Template) {
+					if t.readsTainted(ref) {
+						return nil, cur, taintedRead, false
+					}
+				}
 				v, u := renderTemplate(t, s.Template)
 				if u != "" {
-					return nil, cur, u
+					return nil, cur, u, false
 				}
 				next = append(next, &Trav{Render: v})
 			}
 		case "path":
 			if !pathOK {
-				return nil, cur, "path() after fields()/unwind()"
+				return nil, cur, "path() after fields()/unwind()", false
 			}
 			next = travs
 		case "unwind":
 			f := s.Args[0]
 			if strings.ContainsAny(f, ".$") || strings.HasPrefix(f, "_") {
-				return nil, cur, "unwind() of a nested, reserved or mark field"
+				return nil, cur, "unwind() of a nested, reserved or mark field", false
 			}
 			for _, t := range travs {
+				if t.Cur.Tainted[f] {
+					return nil, cur, "unwind() of a field whose value is unspecified", false
+				}
 				v, ok := t.Cur.Data[f]
 				l, isList := v.([]interface{})
 				if !ok || !isList || len(l) == 0 {
-					return nil, cur, "unwind() of a missing, non-list or empty value"
+					el := *t.Cur
+					el.Data = CopyMap(t.Cur.Data)
+					delete(el.Data, f)
+					el.Tainted = map[string]bool{f: true}
+					for k := range t.Cur.Tainted {
+						el.Tainted[k] = true
+					}
+					next = append(next, t.with(&el, false))
+					subsetOnly = true
+					continue
 				}
 				for _, item := range l {
 					el := *t.Cur
@@ -540,17 +603,44 @@ func Eval(g *Graph, steps []Step) (travs []*Trav, final Type, unspec string) {
 		case "count":
 			next = []*Trav{{Count: len(travs)}}
 		case "limit", "skip", "range", "distinct":
-			return nil, cur, "order-sensitive step " + s.Op
+			return nil, cur, "order-sensitive step " + s.Op, false
 		default:
-			return nil, cur, "step " + s.Op + " has no reference semantics"
+			return nil, cur, "step " + s.Op + " has no reference semantics", false
 		}
 		if len(next) > MaxRows {
-			return nil, cur, "row explosion beyond the reference's size cap"
+			return nil, cur, "row explosion beyond the reference's size cap", false
 		}
 		travs = next
 	}
-	return travs, ty.Final, ""
+	if ty.Final.IsElement() {
+		for _, t := range travs {
+			if t.Cur != nil && len(t.Cur.Tainted) > 0 {
+				return nil, ty.Final, taintedRead, false
+			}
+		}
+	}
+	return travs, ty.Final, "", subsetOnly
 }
+
+// readsTainted reports whether a field reference reads a property whose value is
+// unspecified (see EvalX).
+func (t *Trav) readsTainted(key string) bool {
+	mark, path := SplitRef(key)
+	el := t.Cur
+	if mark != "" {
+		el = t.Marks[mark]
+	}
+	if el == nil || len(el.Tainted) == 0 {
+		return false
+	}
+	first := strings.Split(path, ".")[0]
+	if first == "_data" {
+		return true
+	}
+	return el.Tainted[first]
+}
+
+const taintedRead = "a step reads a field that an earlier unwind() left unspecified"
 
 // Lookup resolves a (possibly mark-qualified) field reference on the traveler.
 func (t *Trav) Lookup(key string) (interface{}, bool) {
